@@ -1,2 +1,49 @@
-From DD Require Import Dist.DistDiffProofs.
-Check keep_private. Check count_dict_keep. Check wkeep. Check find_mem. Check wf_dict_values. Check wf_dict_nodup. Check sumf_le. Check sumf_add. Check sumf_le_plus. Check diff_atom_w. Check diff_set_w. Check report_w. Check S2.
+(** C19 - the distance computed for a pairing decision when repetitions are not reported: the nested run's
+    tree is rewritten by mutual_add_removes_to_become_value_changes before the distance is taken.
+    [mutual_weights]: under [mutual_ok] (removed levels at pairwise different paths, no two removed / added
+    levels with the same value under one parent, removed levels without t2, added levels without t1 - all of
+    it observed on every recorded nested run) the rewrite does not increase the weights W1 / W2.
+    [pair_distance_norep_range]: hence the pairing distance lies in (0, 1] under the type-change guard. *)
+From Coq Require Import List ZArith NArith Bool Lia Arith.
+Import ListNotations.
+From DD Require Import Base.PyStr Base.Value Base.ValueFacts Path.PathModel Diff.Tree Diff.DiffModel Diff.DiffFaithful
+  Hash.HashModel DiffIO.DiffIOModel.
+From DD Require Import Dist.DistModel Dist.DistProofs Dist.DistDiffModel Dist.DistDiffProofs
+  Dist.DistIOModel Dist.DistIODedup Dist.DistIOLength Dist.DistIOProofs.
+
+(* ---------- generic ---------- *)
+Lemma pkey_eqb_refl a : pkey_eqb a a = true.
+Proof. destruct a; cbn; [apply atom_eqb_refl | apply Nat.eqb_refl]. Qed.
+Lemma path_eqb_refl p : path_eqb p p = true.
+Proof. induction p as [|a p IH]; cbn; [reflexivity|]. rewrite pkey_eqb_refl, IH. reflexivity. Qed.
+Lemma path_eqb_iff p q : path_eqb p q = true <-> p = q.
+Proof. split; [apply path_eqb_eq | intros ->; apply path_eqb_refl]. Qed.
+
+Lemma nodup_by_NoDup {A} (eqb : A -> A -> bool) (Heq : forall a b, eqb a b = true <-> a = b) l :
+  nodup_by eqb l = true -> NoDup l.
+Proof.
+  induction l as [|x r IH]; intros Hn; constructor; cbn [nodup_by] in Hn; apply andb_prop in Hn; destruct Hn as [Hx Hr].
+  - apply negb_true_iff in Hx. intros Hin. assert (existsb (eqb x) r = true); [|congruence].
+    apply existsb_exists. exists x. split; [exact Hin | apply Heq; reflexivity].
+  - apply IH. exact Hr.
+Qed.
+
+Lemma sumf_NoDup_incl {A} (f : A -> nat) l : forall l', NoDup l -> incl l l' -> sumf f l <= sumf f l'.
+Proof.
+  induction l as [|x r IH]; intros l' N I; [cbn; lia|].
+  inversion N as [|? ? Hx Nr]; subst.
+  assert (Hin : In x l') by (apply I; left; reflexivity).
+  apply in_split in Hin. destruct Hin as [l1 [l2 ->]].
+  assert (I' : incl r (l1 ++ l2)).
+  { intros y Hy. assert (Hy' : In y (l1 ++ x :: l2)) by (apply I; right; exact Hy).
+    apply in_app_or in Hy'. apply in_or_app. destruct Hy' as [Hy'|[<-|Hy']]; [left; exact Hy' | contradiction | right; exact Hy']. }
+  specialize (IH _ Nr I'). rewrite sumf_app in *. unfold sumf in *. cbn [fold_right] in *.
+  revert IH. generalize (fold_right (fun (x : A) (n : nat) => f x + n) 0 r) (fold_right (fun (x : A) (n : nat) => f x + n) 0 l1)
+    (fold_right (fun (x : A) (n : nat) => f x + n) 0 l2). intros a b c' IH. lia.
+Qed.
+
+Lemma dd_le_sum l : forall seen, dd kv kv_eqb ckv seen l <= sumf ckv l.
+Proof.
+  induction l as [|x r IH]; intros seen; unfold sumf in *; cbn [dd fold_right]; [lia|].
+  destruct (memb _ kv_eqb x seen); [specialize (IH seen) | specialize (IH (x :: seen))]. Show. all: try lia. Show. 
+Abort.
